@@ -142,6 +142,6 @@ def present(atoms, rng, noise=0.0, rotate=True):
 def monolayers():
     from ase.build import graphene, mx2
     out = [("graphene", lambda: graphene(a=2.46, vacuum=8.0), 2), ("h-BN", lambda: graphene("BN", a=2.50, vacuum=8.0), 2)]
-    for f, kind, a0, t in (("MoS2", "2H", 3.18, 3.19), ("WS2", "2H", 3.18, 3.19), ("MoSe2", "2H", 3.32, 3.34), ("TiS2", "1T", 3.41, 2.85), ("SnS2", "1T", 3.65, 2.96)):
+    for f, kind, a0, t in (("MoS2", "2H", 3.18, 3.19), ("WS2", "2H", 3.18, 3.19), ("MoSe2", "2H", 3.32, 3.34), ("TiS2", "1T", 3.41, 2.85), ("SnS2", "1T", 3.65, 2.96), ("MoS2", "1T", 3.18, 3.19)):
         out.append((f + "-" + kind, (lambda f=f, kind=kind, a0=a0, t=t: mx2(f, kind=kind, a=a0, thickness=t, vacuum=8.0)), 3))
     return out
